@@ -241,7 +241,7 @@ class Gen:
             choices.append((2, "macro"))
         choices.append((1, "char"))
         if depth > 0:
-            choices += [(3, "paren"), (2, "unary"), (2, "cast"), (1, "sizeof"), (1, "ptrcast")]
+            choices += [(3, "paren"), (2, "unary"), (2, "cast"), (1, "sizeof")]
             if allow_call:
                 choices.append((3, "call"))
             if env.any_lvalues():
@@ -287,38 +287,6 @@ class Gen:
             self.tag("cast")
             operand = self.cast_operand(ty, self.unary_operand(env, depth - 1, for_cast=True))
             return [Lx("(", "par", ("cast-open",))] + self.type_lex(ty) + [Lx(")", "par", ("cast-close",))] + operand
-        if k == "ptrcast":
-            # (T *)operand with keyword, struct/union-tag and typedef-name types; the '*' inside the parentheses makes it unambiguous
-            kinds = [(4, "kw"), (2, "struct"), (1, "union"), (2, "tdef")]
-            tk = d.weighted(kinds)
-            if tk == "kw":
-                ty = d.choice(["char", "void", "int", "unsigned char", "const char", "long"])
-            elif tk == "struct":
-                ty = d.choice(["", "const "]) + "struct " + (d.choice(self.stags) if self.stags and d.bool() else "s_" + d.choice(["list", "node", "x", "data"]))
-            elif tk == "union":
-                ty = "union u_" + d.choice(["val", "x", "num"])
-            else:
-                if not self.tdefs or d.bool(0.3):
-                    self.tdefs.append(self.fresh("tdef", prefix="t_", lo=2, hi=6))
-                ty = d.choice(self.tdefs)
-            stars = d.weighted([(6, 1), (1, 2)])
-            ok = d.weighted([(4, "ptr"), (3, "addr"), (1, "null"), (1, "zero"), (1, "deref"), (1, "neg"), (1, "call")])
-            if ok == "ptr" and env.ptrs:
-                operand = [Lx(d.choice(env.ptrs), "id")]
-            elif ok == "addr" and (env.ints or env.structs):
-                operand = [Lx("&", "un", ("unary:&",)), Lx(d.choice(env.ints) if env.ints else env.structs[0][0], "id")]
-            elif ok == "deref" and env.ptrs:
-                operand = [Lx("*", "un", ("unary:*",)), Lx(d.choice(env.ptrs), "id")]
-            elif ok == "neg":
-                operand = [Lx("-", "un", ("unary:-",)), Lx("1", "num", ("const:dec",))]
-            elif ok == "call" and allow_call:
-                operand = self.call(env, depth - 1)
-            elif ok == "zero":
-                operand = [Lx("0", "num", ("const:dec",))]
-            else:
-                operand = [Lx("NULL", "kw")]
-            self.tag("cast:pointer", "cast:pointer:" + tk)
-            return [Lx("(", "par", ("cast-open",))] + self.type_lex(ty) + [SP()] + [Lx("*", "op", ("ptr-in-type",)) for _ in range(stars)] + [Lx(")", "par", ("cast-close",))] + operand
         if k == "sizeof":
             self.tag("sizeof")
             if d.bool() or not env.ints:
@@ -333,8 +301,9 @@ class Gen:
             # pointer comparison against NULL: (p == NULL) style atom
             if env.ptrs:
                 self.tag("null-compare")
-                return [Lx("(", "par"), Lx(d.choice(env.ptrs), "id"), SP(), Lx(d.choice(["==", "!="]), "op", ("binop",)), SP(),
-                        Lx("NULL", "kw"), Lx(")", "par")]
+                lhs = [Lx(d.choice(env.ptrs), "id")] if d.bool(0.8) else self.pointer_cast(env, 0, allow_call=False)
+                return [Lx("(", "par")] + lhs + [SP(), Lx(d.choice(["==", "!="]), "op", ("binop",)), SP(),
+                                                  Lx("NULL", "kw"), Lx(")", "par")]
             return self.constant(True)
         raise AssertionError(k)
 
@@ -410,9 +379,46 @@ class Gen:
         self.funcs_known.append(f)
         return f
 
+    def pointer_cast(self, env, depth, allow_call=True):
+        """(T *)operand — a pointer value: used only where a pointer may stand (argument, comparison with NULL, whole right-hand side)"""
+        d = self.d
+        # (T *)operand with keyword, struct/union-tag and typedef-name types; the '*' inside the parentheses makes it unambiguous
+        kinds = [(4, "kw"), (2, "struct"), (1, "union"), (2, "tdef")]
+        tk = d.weighted(kinds)
+        if tk == "kw":
+            ty = d.choice(["char", "void", "int", "unsigned char", "const char", "long"])
+        elif tk == "struct":
+            ty = d.choice(["", "const "]) + "struct " + (d.choice(self.stags) if self.stags and d.bool() else "s_" + d.choice(["list", "node", "x", "data"]))
+        elif tk == "union":
+            ty = "union u_" + d.choice(["val", "x", "num"])
+        else:
+            if not self.tdefs or d.bool(0.3):
+                self.tdefs.append(self.fresh("tdef", prefix="t_", lo=2, hi=6))
+            ty = d.choice(self.tdefs)
+        stars = d.weighted([(6, 1), (1, 2)])
+        ok = d.weighted([(4, "ptr"), (3, "addr"), (1, "null"), (1, "zero"), (1, "deref"), (1, "neg"), (1, "call")])
+        if ok == "ptr" and env.ptrs:
+            operand = [Lx(d.choice(env.ptrs), "id")]
+        elif ok == "addr" and (env.ints or env.structs):
+            operand = [Lx("&", "un", ("unary:&",)), Lx(d.choice(env.ints) if env.ints else env.structs[0][0], "id")]
+        elif ok == "deref" and env.ptrs:
+            operand = [Lx("*", "un", ("unary:*",)), Lx(d.choice(env.ptrs), "id")]
+        elif ok == "neg":
+            operand = [Lx("-", "un", ("unary:-",)), Lx("1", "num", ("const:dec",))]
+        elif ok == "call" and allow_call:
+            operand = self.call(env, depth - 1)
+        elif ok == "zero":
+            operand = [Lx("0", "num", ("const:dec",))]
+        else:
+            operand = [Lx("NULL", "kw")]
+        self.tag("cast:pointer", "cast:pointer:" + tk)
+        return [Lx("(", "par", ("cast-open",))] + self.type_lex(ty) + [SP()] + [Lx("*", "op", ("ptr-in-type",)) for _ in range(stars)] + [Lx(")", "par", ("cast-close",))] + operand
+
     def arg(self, env, depth):
         d = self.d
-        k = d.weighted([(8, "expr"), (2, "str"), (1, "null"), (1, "addr")])
+        k = d.weighted([(8, "expr"), (2, "str"), (1, "null"), (1, "addr"), (2, "ptrcast")])
+        if k == "ptrcast":
+            return self.pointer_cast(env, depth, allow_call=depth > 0)
         if k == "str":
             return self.string_const()
         if k == "null":
@@ -1481,7 +1487,12 @@ def gen_h(d, opts=None, name=None, guard=True):
                                   [Lx(")", "par"), Lx(";", "semi")]))
                     continue
                 dec = [Lx("*", "op", ("ptr-decl",))] if d.bool(0.2) else []
-                specs.append((ty, dec + [Lx(t, "id", ("decl-name", "typedef-name")), Lx(";", "semi")]))
+                arr = []
+                if d.bool(0.2):     # typedef double	t_vec[4];  /  t_mat[4][4]
+                    for _ in range(d.int(1, 2)):
+                        arr += [Lx("[", "br"), Lx(str(d.int(1, 16)), "num", ("const:dec",)), Lx("]", "br")]
+                    g.tag("alias:array")
+                specs.append((ty, dec + [Lx(t, "id", ("decl-name", "typedef-name"))] + arr + [Lx(";", "semi")]))
             built.append((k, specs))
         else:
             built.append((k, g.proto_specs(d.int(1, 4), static_only=False)))
